@@ -28,4 +28,8 @@ ENTRIES = {
   technique="bounded symbolic execution (engine A, z3): real perturbation wrappers over real substitute/multisubstitute/shuffle/predict with an uninterpreted model and symbolic shuffle permutations",
   text="marginalize, marginalize_annotations, ablate, ablate_annotations, space, apply_pairwise, apply_product run on symbolic sequences/motifs/args, symbolic positions, windows, spacing rows, annotation rows, seeds and batch size, with the RNG modelled as arbitrary permutations named by (seed, call index) and the model an uninterpreted row-wise function with 1-2 outputs; z3 proves 'before' == F(X, args) and every 'after'/product entry == F(the harness's own string-level edit of the example its index denotes, that example's args).",
   note=COMMON_NOTE + " func = predict only; small shapes (B <= 2-3, L <= 4-6, n shuffles <= 3, <= 3 annotations, product sets <= 3x2(x2)); *_annotations without extra args."),
+ "C18": dict(
+  technique="bounded symbolic execution (engine A, z3): real annotate counting functions and kmers on symbolic annotation tables / sequences vs If-sum enumeration",
+  text="count_annotations (all dim modes, explicit shape), pairwise_annotations (symmetric or not), pairwise_annotations_spacing and kmers (with and without scores) run on tables whose every field (example, type, start, end) is symbolic and on symbolic sequences/scores; symbolic indices go through guarded stores (numpy negative-index wrap and IndexError modelled); z3 proves every entry equals brute-force counting written as sums of If terms, including that overlapping or too-distant pairs contribute nothing.",
+  note=COMMON_NOTE + " <= 3 rows quick / 4 thorough, <= 2 examples, <= 3 types, coordinates <= 6, max_distance <= 3; kmers A <= 4, L <= 5, k <= 3; tensor input form only."),
 }
